@@ -553,7 +553,16 @@ func (dtlsr *DTLSR) broadcast() {
 	dtlsr.dataMutex.RLock()
 	source := dtlsr.c.NodeId
 	destination := dtlsr.broadcastAddress
-	metadataBlock := bpv7.NewDTLSRBlock(dtlsr.peers)
+	// The block gets its own copy of the peers; it is serialized later on, when the lock is not held any more.
+	peers := make(map[bpv7.EndpointID]bpv7.DtnTime, len(dtlsr.peers.Peers))
+	for peer, timestamp := range dtlsr.peers.Peers {
+		peers[peer] = timestamp
+	}
+	metadataBlock := bpv7.NewDTLSRBlock(bpv7.DTLSRPeerData{
+		ID:        dtlsr.peers.ID,
+		Timestamp: dtlsr.peers.Timestamp,
+		Peers:     peers,
+	})
 	dtlsr.dataMutex.RUnlock()
 
 	err := sendMetadataBundle(dtlsr.c, source, destination, metadataBlock)
